@@ -976,6 +976,15 @@ def body(R):
                 for kinds in itertools.product(group, repeat=n):
                     for s in scripts:
                         do(driver, kinds, None, s)
+            if maxn < 3:
+                # a copy shared by the branches that are not the last one needs three branches to be seen
+                sub = group[:3]
+                R.scope("%s.fill + %s.%s" % (label, label, meth),
+                        "all branch lists of length 3 over the %s branch kinds %r, the same %d scripts"
+                        % (gname, sub, len(scripts)), True)
+                for kinds in itertools.product(sub, repeat=3):
+                    for s in scripts:
+                        do(driver, kinds, None, s)
     nrand = 1500 if R.thorough else 200
     R.scope("Split/Zip fill-driven", "%d random branch lists of length 2..5 of one type, random scripts of fill/"
             "compute-or-request of length 3..10" % nrand, False)
